@@ -15,6 +15,11 @@ def scool_body(env, p):
     n = sum(layout)
     names = p["names"][:len(Ks)]
     bins0 = concrete_bins(layout, p["kind"])
+    if p.get("chrom_names"):
+        # chromosome names whose given order is not the lexicographic one
+        bins0["chrom"] = bins0["chrom"].map({f"c{i}": nm for i, nm in enumerate(p["chrom_names"])})
+    chrom_order = list(dict.fromkeys(bins0["chrom"].tolist()))
+    chrom_len = [int(bins0[bins0["chrom"] == nm]["end"].max()) for nm in chrom_order]
     pd = env.pd
     cells, binsd, extra = {}, {}, {}
     for i, (nm, K) in enumerate(zip(names, Ks)):
@@ -63,7 +68,10 @@ def scool_body(env, p):
                     env.check(cond, f"cell {nm}: " + msg)
             else:
                 validity_real(path, "/cells/" + nm)
+        env.check(list(c.chromnames) == chrom_order and [int(x) for x in vals(c.chromsizes)] == chrom_len,
+                  f"cell {nm}: chromosome names / lengths {list(c.chromnames)} are not those of the bin table in its order {chrom_order}")
         bt = c.bins()[:]
+        env.check([str(x) for x in vals(bt["chrom"])] == bins0["chrom"].tolist(), f"cell {nm}: chromosome column of the bin table changed")
         env.check(and_(*[a == b for a, b in zip(vals(bt["start"]), bins0["start"].tolist())], *[a == b for a, b in zip(vals(bt["end"]), bins0["end"].tolist())]),
                   "cell does not read over the common bin table")
         for col in ("chrom", "start", "end"):
@@ -88,6 +96,8 @@ def _cases(tier):
         for per_cell in (False, True):
             out.append(dict(layout=list(layout), kind=kind, Ks=list(Ks), per_cell_bins=per_cell, names=["b2", "a3", "c1"]))
     out.append(dict(layout=[2], kind="fixed", Ks=[1, 1], per_cell_bins=True, names=["b2", "a3", "c1"], extra_in_middle=True))
+    for per_cell in (False, True):
+        out.append(dict(layout=[1, 2], kind="fixed", Ks=[1, 1], per_cell_bins=per_cell, names=["b2", "a3", "c1"], chrom_names=["chr2", "chr10"]))
     out.append(dict(layout=[2], kind="fixed", Ks=[2, 1], per_cell_bins=False, names=["b2", "a3", "c1"], float_counts=True))
     return out
 
